@@ -234,8 +234,8 @@ def captureLiteral (T : Tables) (urlOk : List Nat → Bool) (e : End) (legacy : 
               if r2.1 ≠ 0x3c then .err .syntax ((s5.read r2).offErr stale2 r2.2)
               else match captureIRI T urlOk e (s5.read r2) r2 rest2 with
                 | .ok d s7 r =>
-                  -- an explicit rdf:langString datatype: error carrying the datatype IRI's range
-                  if d.1 = rdfLangString then .err .syntax (rangeErr d.2)
+                  -- an explicit rdf:langString / rdf:dirLangString datatype: error carrying the datatype IRI's range
+                  if d.1 = rdfLangString ∨ d.1 = rdfDirLangString then .err .syntax (rangeErr d.2)
                   else .ok (.lit lex d.1 none, span sr d.2) s7 r
                 | .err x o => .err x o
       else .ok (.lit lex xsdString none, sr) s2 (r0 :: rest0)   -- BacktrackRunes(r0)
